@@ -425,8 +425,11 @@ def run(ctx):
     ctx.assumptions += ["integer formatting/parsing of the clocks by core", "C19's enum<->char tables are inverse bijections"]
     # round-trip equality compares hash, checkers and pins too: the rules that keep them a function of the
     # position (owned by C03 and C10) are prerequisites of this property and are re-run here
-    from . import c03, c10
+    from . import c03, c10, c06
     expl = ctx.explanation
     c03.run(ctx)
     c10.run(ctx)
+    # parsing back what was formatted succeeds only if the validators accept every board the library hands out:
+    # a validator stricter than the property's list (C06 owns the equivalence rule) rejects reachable positions
+    c06.check_validators(ctx, f, L)
     ctx.explanation = expl
